@@ -1,4 +1,7 @@
 mod term;
+mod c37;
+mod c27;
+mod c38;
 mod c36;
 mod crash;
 mod c02;
@@ -15,6 +18,7 @@ fn main() {
     let args: Vec<String> = std::env::args().collect();
     if args.len() >= 6 && args[1] == "C32-child" { c32::child(&args[2..]); return; }
     if args.len() >= 5 && args[1] == "CRASH-child" { crash::child(&args[2..]); return; }
+    if args.len() >= 3 && args[1] == "C02-trace" { let d = tempfile::tempdir().unwrap(); for (i, t) in crash::protocol_traces(d.path(), &args[2]).iter().enumerate() { println!("{} {:?}", i, t); } return; }
     if args.len() < 5 {
         eprintln!("usage: mvharness <property> <seed> <n> <outfile> [extra...]");
         std::process::exit(2);
@@ -35,6 +39,9 @@ fn main() {
         "C32" => c32::run(seed, n, _extra.first().map(|s| s.as_str()).unwrap_or("quick"), &mut out),
         "C34" => c34::run(seed, n, &mut out),
         "C36" => c36::run(seed, n, &mut out),
+        "C38" => c38::run(seed, n, &mut out),
+        "C27" => c27::run(seed, n, &mut out),
+        "C37" => c37::run(seed, n, &mut out),
         _ => { eprintln!("unknown property {}", prop); std::process::exit(2); }
     }
 }
